@@ -455,11 +455,12 @@ def read_dir(root, desc=None, cells=True, also=()):
                 out["files"][name] = {"meta": m}
             elif name.endswith(".memmap"):
                 c = {"size": os.path.getsize(fp)}
-                for dd in ([desc] if desc is not None else []) + list(also):
+                for di, dd in enumerate(([desc] if desc is not None else []) + list(also)):
                     lf = leaf_at(dd, rel + [name])
                     if cells and lf is not None and not lf["dtype"].startswith("float8"):
                         n = numel(lf["shape"])
-                        if n and c["size"] == n * ITEMSIZE[lf["dtype"]]:
+                        # a file that was there before keeps its length when the new content is shorter: the first n cells count
+                        if n and (c["size"] == n * ITEMSIZE[lf["dtype"]] or (di == 0 and also and c["size"] > n * ITEMSIZE[lf["dtype"]])):
                             t = torch.from_file(fp, shared=False, size=n, dtype=ALL_DT[lf["dtype"]])
                             c["cells"] = to_ints(t)
                             break
@@ -1835,10 +1836,11 @@ def compare_with_model(R, model_q):
 
 
 def strip_unknown(d):
-    """cells of files whose size does not fit the descriptor cannot be decoded from disk: compare sizes only there"""
+    """over an existing directory a rewritten file keeps its old length when the new content is shorter (bytes, not modelled):
+    lengths are not compared there"""
     out = {"files": {}, "subs": {n: strip_unknown(s) for n, s in d["subs"].items()}}
     for n, c in d["files"].items():
-        out["files"][n] = c
+        out["files"][n] = {k: v for k, v in c.items() if k != "size"} if n.endswith(".memmap") else c
     return out
 
 
